@@ -26,15 +26,17 @@ def _overlay_span(fn, origin):
     return name, lo, hi
 
 
-def analyse_unit(r, tops, allowed_assumptions):
+def analyse_unit(r, tops, allowed_assumptions, support=None):
     """-> dict(obligations=[..], failures=[..], inconclusive=[..], assumptions=[..])"""
     out = {'unit': r['unit'], 'obligations': [], 'failures': [], 'inconclusive': [], 'assumptions': [], 'functions_under_contract': []}
     for p in r['extract']['problems']:
         out['inconclusive'].append({'why': p['kind'], 'detail': p})
     fns = r['fns']
     by_path = {f.path: f for f in fns}
-    cone = F.cone(fns, tops)
-    missing = [t for t in tops if not t.endswith('*') and t not in by_path]
+    primary = F.cone(fns, tops)
+    cone = F.cone(fns, list(tops) + list(support or []))
+    out['primary_cone'] = primary
+    missing = [t for t in list(tops) + list(support or []) if not t.endswith('*') and t not in by_path]
     for t in missing:
         out['inconclusive'].append({'why': 'function-not-found', 'detail': t})
     if r['json'] is None:
@@ -83,7 +85,7 @@ def analyse_unit(r, tops, allowed_assumptions):
         if key in seen:
             continue
         seen.add(key)
-        rec = {'function': site['fn'], 'mode': f.mode, 'kind': e['message'], 'site_text': site['text'], 'site_origin': site['origin'],
+        rec = {'function': site['fn'], 'mode': f.mode, 'kind': e['message'], 'site_text': site['text'], 'site_origin': site['origin'], 'in_primary': site['fn'] in primary,
                'sites': e['sites'], 'rendered': e['rendered']}
         ovname, lo, hi = _overlay_span(f, r['origin'])
         lost_here = [x for x in all_lost if lo is not None and lo <= x[1] <= hi]
@@ -222,7 +224,7 @@ def check_property(pid, tier, repo, scratch, seed):
     def unit_job(item):
         unit, tops = item
         r = F.run_verus(unit, repo, scratch, seed)
-        a = analyse_unit(r, tops, allowed)
+        a = analyse_unit(r, tops, allowed, (pm.get('support') or {}).get(unit))
         a['t_verus'] = r['t_verus']
         a['t_extract'] = r['t_extract']
         a['extract'] = r['extract']
@@ -237,7 +239,10 @@ def check_property(pid, tier, repo, scratch, seed):
         return run_engine(eng, pid, tier, repo, scratch, seed)
 
     with ThreadPoolExecutor(max_workers=6) as ex:
-        ufut = [ex.submit(unit_job, it) for it in pm.get('verus', {}).items()]
+        unit_items = dict(pm.get('verus', {}))
+        for su in (pm.get('support') or {}):
+            unit_items.setdefault(su, [])
+        ufut = [ex.submit(unit_job, it) for it in unit_items.items()]
         efut = [ex.submit(engine_job, e) for e in pm.get('engines', [])]
         for fu in ufut:
             a = fu.result()
@@ -261,9 +266,16 @@ def check_property(pid, tier, repo, scratch, seed):
     # which failed obligations speak about THIS property (the others leave it undecided, not violated)
     relv = pm.get('relevance') or {}
 
+    INV_WORDS = ('wf(', 'seg_wf(', 'klist_wf(', '.wf(', '.inv()', 'ji(', 'sinv(', 'cinv(', 'pinv(', 'fresh(', 'seg_fresh(')
+
     def relevant(f):
         if f.get('concrete_input'):
             return True
+        if f.get('in_primary') is False and not relv:
+            # a state-changing operation that the property only needs for "every reachable state": a failed result clause
+            # of it says nothing about this property; anything that may concern the representation invariant does
+            if 'postcondition not satisfied' in f.get('kind', '') and not any(w in (f.get('site_text') or '') for w in INV_WORDS):
+                return False
         if f.get('function', '').startswith('kani::') or f.get('function', '').startswith('regression'):
             return True
         if relv.get('site_tag'):
